@@ -156,9 +156,23 @@ def handle (op : String) (args res : List String) : Option String :=
   match op, args with
   | "chord", [c, o, e] => do
     let c ← parseF64? c; let o ← parseF64? o; let e ← parseF64? e
-    pure (verdict [showF64 (Chord.add c o), showF64 (Chord.sub c o), showF64 (Chord.expanded c e),
+    -- property on the implementation's own numbers: for valid operands (0 ≤ c, o ≤ 4) the sum and the difference are valid
+    -- chord angles again (the sum is clamped at the straight angle: a value above 4 makes every cap built from it invalid)
+    let four : F64 := ⟨0x4010000000000000⟩
+    let valid (x : F64) : Bool := x.isFinite && F64.ge x (F64.zero false) && F64.le x four
+    let prop : Option String :=
+      if !(valid c && valid o) then none else
+      match res with
+      | ra :: rs :: _ =>
+        match parseF64? ra, parseF64? rs with
+        | some a, some sb =>
+          if !(valid a) then some "chord-add-not-a-valid-chord-angle"
+          else if !(valid sb) then some "chord-sub-not-a-valid-chord-angle" else none
+        | _, _ => some "unparseable"
+      | _ => some "impl-output-arity"
+    pure (verdictP [showF64 (Chord.add c o), showF64 (Chord.sub c o), showF64 (Chord.expanded c e),
                    showF64 (Chord.successor c), showF64 (Chord.predecessor c), showF64 (Chord.sin2 c),
-                   showF64 (Chord.cos c), showF64 (Chord.fromSquaredLength e)] res)
+                   showF64 (Chord.cos c), showF64 (Chord.fromSquaredLength e)] res prop)
   | "cap", [a1, a2, a3, a4, b1, b2, b3, b4, _dist, dc, ps] => do
     let (a, _) ← pCap? [a1, a2, a3, a4]; let (b, _) ← pCap? [b1, b2, b3, b4]
     let dc ← parseF64? dc; let ps ← parsePts? ps
